@@ -98,16 +98,34 @@ pub fn gen_case(s: &mut Source, cfg: &FdCfg) -> FdCase {
             Term::Var(s.below(nvars) as VarId)
         }
     };
+    // A witness assignment: with weight 0.7 domains and constraints are steered so that the
+    // witness is a solution, which makes satisfiable (non-trivial) programs frequent.
+    let steer = s.flag(180);
+    let wit: Vec<i64> = (0..nvars).map(|_| s.range(cfg.lo, cfg.hi)).collect();
     // domains: each variable gets at least one; some get two; some are posted on lists
     let mut domain_goals = vec![];
     let dom = |s: &mut Source, x: Term| -> Goal {
+        // values the domain must contain when steering
+        let must: Vec<i64> = if steer {
+            match &x {
+                Term::Var(v) => vec![wit[*v as usize]],
+                t => t.as_proper_list().map(|l| l.iter().filter_map(|e| if let Term::Var(v) = e { Some(wit[*v as usize]) } else { None }).collect()).unwrap_or_default(),
+            }
+        } else {
+            vec![]
+        };
         if s.flag(90) {
             let n = 1 + s.below(5);
-            let vals: Vec<i64> = (0..n).map(|_| s.range(cfg.lo, cfg.hi)).collect();
+            let mut vals: Vec<i64> = (0..n).map(|_| s.range(cfg.lo, cfg.hi)).collect();
+            vals.extend(must.iter().copied());
             Goal::Fd(FdGoal::InFd(x, vals))
         } else {
-            let a = s.range(cfg.lo, cfg.hi);
-            let b = s.range(a, (a + 6).min(cfg.hi));
+            let mut a = s.range(cfg.lo, cfg.hi);
+            let mut b = s.range(a, (a + 6).min(cfg.hi));
+            for m in &must {
+                a = a.min(*m);
+                b = b.max(*m);
+            }
             Goal::Fd(FdGoal::InFdRange(x, a, b))
         }
     };
@@ -125,7 +143,7 @@ pub fn gen_case(s: &mut Source, cfg: &FdCfg) -> FdCase {
         domain_goals.push(dom(s, x));
     }
     // constraints
-    let nc = s.below(cfg.max_constraints + 1);
+    let nc = if s.flag(200) { 2 + s.below(cfg.max_constraints.saturating_sub(1).max(1)) } else { s.below(cfg.max_constraints + 1) };
     let mut cons = vec![];
     for _ in 0..nc {
         let mut w = [3u32, 2, 3, 2, 2, 2, 2, 2];
@@ -152,6 +170,40 @@ pub fn gen_case(s: &mut Source, cfg: &FdCfg) -> FdCase {
                 let b = operand(s);
                 Goal::Eq(a, b)
             }
+        };
+        // steer the constraint towards the witness: replace the last operand of an arithmetic
+        // constraint by the constant that makes it hold, orient comparisons
+        let g = if steer && s.flag(200) {
+            let val = |t: &Term| -> i64 {
+                match t {
+                    Term::Int(i) => *i,
+                    Term::Var(v) => wit[*v as usize],
+                    _ => 0,
+                }
+            };
+            match g {
+                Goal::Fd(FdGoal::Plus(a, b, c)) => {
+                    if val(&a) + val(&b) == val(&c) { Goal::Fd(FdGoal::Plus(a, b, c)) } else { let k = Term::Int(val(&a) + val(&b)); Goal::Fd(FdGoal::Plus(a, b, k)) }
+                }
+                Goal::Fd(FdGoal::Minus(a, b, c)) => {
+                    if val(&a) - val(&b) == val(&c) { Goal::Fd(FdGoal::Minus(a, b, c)) } else { let k = Term::Int(val(&a) - val(&b)); Goal::Fd(FdGoal::Minus(a, b, k)) }
+                }
+                Goal::Fd(FdGoal::Times(a, b, c)) => {
+                    if val(&a) * val(&b) == val(&c) { Goal::Fd(FdGoal::Times(a, b, c)) } else { let k = Term::Int(val(&a) * val(&b)); Goal::Fd(FdGoal::Times(a, b, k)) }
+                }
+                Goal::Fd(FdGoal::Lte(a, b)) => {
+                    if val(&a) <= val(&b) { Goal::Fd(FdGoal::Lte(a, b)) } else { Goal::Fd(FdGoal::Lte(b, a)) }
+                }
+                Goal::Fd(FdGoal::Lt(a, b)) => {
+                    if val(&a) < val(&b) { Goal::Fd(FdGoal::Lt(a, b)) } else if val(&b) < val(&a) { Goal::Fd(FdGoal::Lt(b, a)) } else { Goal::Fd(FdGoal::Lte(a, b)) }
+                }
+                Goal::Eq(a, b) => {
+                    if val(&a) == val(&b) { Goal::Eq(a, b) } else { let k = Term::Int(val(&a)); Goal::Eq(a, k) }
+                }
+                g => g,
+            }
+        } else {
+            g
         };
         cons.push(g);
     }
